@@ -170,22 +170,37 @@ def catalog_rules(repo, res):
             from ..axis import body_without_doc
             bodies.setdefault(m, {})[key] = [SP.nf_stmt(s) if not isinstance(s, ast.If) else 'if ' + nf(s.test) + ': ' + '; '.join(SP.nf_stmt(b) for b in s.body)
                                              for s in body_without_doc(g.node) if not isinstance(s, ast.Pass)]
-    for m, d in bodies.items():
-        vals = list(d.values())
-        ok = all(v == vals[0] for v in vals)
-        res.oblige('SIB', f'the three finder catalogs agree on {m}', ok, nontrivial=True, sample={'method': m, 'body': vals[0]})
-        if not ok:
-            res.add(Finding('SIB', f'{CATS["dao"]}.{m}', f'{m} differs between finder catalogs', repo.get_class(CATS['dao']).module.relpath,
-                            f'the DAO/IRAF/StarFinder catalogs implement `{m}` differently: {d}', {}))
-    want = {'select_brightest': ['newcat = self', 'if ' + nf_text('self.brightest is not None') + ': idx = ' + nf_text('np.argsort(self.flux)[::-1][:self.brightest]') + '; newcat = self[idx]', 'return newcat'],
-            'reset_ids': ['self.id = ' + nf_text('np.arange(len(self)) + 1')]}
-    for m, w in want.items():
-        got = bodies[m]['dao']
-        ok = got == w
-        res.oblige('SPEC', f'{m}: {w}', ok, nontrivial=True, sample={'got': got})
-        if not ok:
-            res.add(Finding('SPEC', f'{CATS["dao"]}.{m}', f'{m} body', repo.get_class(CATS['dao']).module.relpath,
-                            f'{m} must be {w} (brightest = N largest fluxes; ids 1..N); found {got}', {}))
+    from .common import pathsum_spec
+    DEFS = {
+        'select_brightest': '''
+def select_brightest(self):
+    newcat = self
+    if self.brightest is not None:
+        idx = np.argsort(self.flux)[::-1][:self.brightest]
+        newcat = self[idx]
+    return newcat
+''',
+        'reset_ids': '''
+def reset_ids(self):
+    self.id = np.arange(len(self)) + 1
+''',
+        'apply_all_filters': '''
+def apply_all_filters(self):
+    cat = self.apply_filters()
+    if cat is None:
+        return None
+    cat = cat.select_brightest()
+    cat.reset_ids()
+    return cat
+''',
+    }
+    for m in ('select_brightest', 'reset_ids', 'apply_all_filters'):
+        for key, cn in CATS.items():
+            g = repo.get_class(cn).lookup(m)
+            pathsum_spec(res, 'SIB' if m == 'apply_all_filters' else 'SPEC', g, DEFS[m],
+                         {'select_brightest': 'brightest = the N largest fluxes (all sources when brightest is None)',
+                          'reset_ids': 'ids 1..N',
+                          'apply_all_filters': 'filters, then brightest, then reset_ids; None when nothing passes the filters'}[m])
     got = bodies['apply_all_filters']['dao']
     order = [i for i, s in enumerate(got) if 'apply_filters' in s] + [i for i, s in enumerate(got) if 'select_brightest' in s] + \
         [i for i, s in enumerate(got) if 'reset_ids' in s]
